@@ -1,5 +1,5 @@
 """CPU time of CParser().parse on each text of a JSON list read from stdin (fresh parser per text, after a warm-up parse).
-Run in a subprocess by the C16 check; prints a JSON list of seconds (-1 for a text that is not accepted)."""
+Run in a subprocess by the C16 check; prints a JSON list of [CPU seconds (-1 for a text that is not accepted), number of Python-level and C-level function calls - a deterministic cost]."""
 import json, os, sys, time
 sys.path.insert(0, os.path.dirname(os.path.abspath(__file__)))
 import lib  # noqa: puts the repository under test first on sys.path
@@ -19,5 +19,17 @@ for t in texts:
             break
         dt = time.process_time() - t0
         best = dt if best is None else min(best, dt)
-    out.append(best)
+    calls = [0]
+    if best is not None and best >= 0:
+        def prof(frame, event, arg):
+            if event == "call" or event == "c_call":
+                calls[0] += 1
+        sys.setprofile(prof)
+        try:
+            c_parser.CParser().parse(t, "t.c")
+        except Exception:
+            pass
+        finally:
+            sys.setprofile(None)
+    out.append([best, calls[0]])
 json.dump(out, sys.stdout)
